@@ -17,8 +17,9 @@
 (*                and the writer goroutine finishes on its own             *)
 (*   unix_volume.go WriteBlock: IsFull, MkdirAll, TempFile("tmp"+H),       *)
 (*                Serialize lock, io.Copy (one Write per chunk), Close,    *)
-(*                Chtimes(tmp), Rename(tmp -> block path); every error     *)
-(*                path removes the temp file                               *)
+(*                Chtimes(tmp), OpenFile + lockfile of the file being      *)
+(*                replaced if there is one (commit 6f6002f), Rename(tmp -> *)
+(*                block path); every error path removes the temp file      *)
 (*                                                                         *)
 (* pc = the yield-point label the writer stands at (tools/instrument), so  *)
 (* a kill / cancel point of the model is a label of the real code.         *)
@@ -78,7 +79,8 @@ Init == \E p \in Pres, n \in Chunks, m \in Modes :
 Labels == {"Compare.stat", "Compare.getFunc", "Touch.OpenFile", "Touch.lock", "Touch.lockfile", "Touch.Chtimes",
            "WriteBlock.IsFull", "WriteBlock.MkdirAll", "WriteBlock.TempFile", "WriteBlock.lock", "WriteBlock.Copy",
            "WriteBlock.Write#1", "WriteBlock.Write#2", "WriteBlock.Write#3", "WriteBlock.tmpfile.Close",
-           "WriteBlock.Chtimes", "WriteBlock.Rename", "WriteBlock.errClose", "WriteBlock.Remove"}
+           "WriteBlock.Chtimes", "WriteBlock.OpenFile", "WriteBlock.lockfile", "WriteBlock.Rename",
+           "WriteBlock.errClose", "WriteBlock.Remove"}
 
 Start == /\ pc = "start"
          /\ C!PutStartEff(cf.pre)
@@ -137,6 +139,13 @@ Step ==
               /\ pc' = "WriteBlock.Chtimes"
               /\ UNCHANGED <<pvars, att, ent, newk, tmp, junk, touched, reply, wdone, viol>>
          [] pc = "WriteBlock.Chtimes" ->
+              /\ pc' = "WriteBlock.OpenFile"
+              /\ UNCHANGED <<pvars, att, ent, newk, tmp, junk, touched, reply, wdone, viol>>
+         [] pc = "WriteBlock.OpenFile" ->
+              \* open the file being replaced (O_RDWR): absent or a directory -> no flock is taken
+              /\ pc' = IF ent = "absent" \/ cf.pre = "dir" THEN "WriteBlock.Rename" ELSE "WriteBlock.lockfile"
+              /\ UNCHANGED <<pvars, att, ent, newk, tmp, junk, touched, reply, wdone, viol>>
+         [] pc = "WriteBlock.lockfile" ->
               /\ pc' = "WriteBlock.Rename"
               /\ UNCHANGED <<pvars, att, ent, newk, tmp, junk, touched, reply, wdone, viol>>
          [] pc = "WriteBlock.Rename" ->
